@@ -409,7 +409,7 @@ def verify_lemma(w, lem, prop, table=None):
 
 
 # ---------------------------------------------------------------------------- parallel driver
-JOB_TIMEOUT_S = int(os.environ.get('VERIF_JOB_TIMEOUT_S', '900'))
+JOB_TIMEOUT_S = int(os.environ.get('VERIF_JOB_TIMEOUT_S', '300'))
 
 
 class JobTimeout(BaseException):
